@@ -111,6 +111,16 @@ func runRelay(c *Case, r *Run, script []relayEv, gapMode int, window int, chunk 
 		a1.Out().SetWindow(window)
 		b1.Out().SetWindow(window)
 	}
+	// Close of one of the relay's ends reports an error although it closes
+	// (which end rotates with the error kind)
+	switch errKind % 4 {
+	case 1:
+		b1.SetCloseErr(errors.New("close: failed to send the closing alert: broken pipe"))
+		r.Count("relay_close_reports_an_error", 1)
+	case 3:
+		a1.SetCloseErr(errors.New("close: failed to send the closing alert: broken pipe"))
+		r.Count("relay_close_reports_an_error", 1)
+	}
 	var mu sync.Mutex
 	var wg sync.WaitGroup
 	// far-end readers drain continuously and check the forwarded stream
@@ -260,6 +270,21 @@ func runRelay(c *Case, r *Run, script []relayEv, gapMode int, window int, chunk 
 			synctest.Wait()
 			if !anyEnd {
 				anyEnd, firstEnd, otherHealthy = true, s.name+"-"+ev.kind[1:], false
+			}
+		case "selfclose":
+			// the transport behind this end tears itself down (as meek_lite's worker
+			// does when it gives up): its own Close has run when the relay's Read
+			// on it fails, so the relay's Close of it reports an error
+			if s.ended != "" {
+				continue
+			}
+			synctest.Wait()
+			s.ended = "rst"
+			s.relay.Close()
+			r.Count("relay_side_closed_itself", 1)
+			synctest.Wait()
+			if !anyEnd {
+				anyEnd, firstEnd, otherHealthy = true, s.name+"-selfclose", false
 			}
 		case "stall":
 			// this side's application stops reading: with a bounded window the
@@ -787,8 +812,10 @@ func group(seq string, mask int) []string {
 
 type stubTransport struct{}
 
-func (stubTransport) Name() string                                   { return "stub" }
-func (stubTransport) ClientFactory(string) (base.ClientFactory, error) { return nil, errors.New("unused") }
+func (stubTransport) Name() string { return "stub" }
+func (stubTransport) ClientFactory(string) (base.ClientFactory, error) {
+	return nil, errors.New("unused")
+}
 func (stubTransport) ServerFactory(string, *pt.Args) (base.ServerFactory, error) {
 	return nil, errors.New("unused")
 }
@@ -1072,7 +1099,9 @@ func TestCheck(t *testing.T) {
 								c.Violation(sig+"/"+classify(scripts[i]), fmt.Sprintf("%v; script %v", e, scripts[i]), nil)
 							}
 						}()
-						synctest.Test(c.T, func(t *testing.T) { runRelay(c, r, scripts[i], v[0], v[1], v[2], r.Sub("relay", i, v[0], v[1], v[2]), ek) })
+						synctest.Test(c.T, func(t *testing.T) {
+							runRelay(c, r, scripts[i], v[0], v[1], v[2], r.Sub("relay", i, v[0], v[1], v[2]), ek)
+						})
 					}()
 				}
 			}
@@ -1092,6 +1121,11 @@ func TestCheck(t *testing.T) {
 			[]relayEv{{x + "werr", 0}, {y + "w", 700}},
 			[]relayEv{{x + "w", 700}, {x + "werr", 0}, {y + "w", 70000}},
 			[]relayEv{{x + "stall", 0}, {y + "w", 70000}, {x + "rst", 0}},
+			// the side has torn itself down before the relay notices
+			[]relayEv{{x + "selfclose", 0}},
+			[]relayEv{{x + "w", 700}, {y + "w", 700}, {x + "selfclose", 0}},
+			[]relayEv{{y + "w", 70000}, {x + "selfclose", 0}, {y + "w", 700}},
+			[]relayEv{{x + "stall", 0}, {y + "w", 70000}, {x + "selfclose", 0}},
 			// both copy directions fail on their own
 			[]relayEv{{x + "rstw", 0}},
 			[]relayEv{{y + "w", 700}, {x + "rstw", 0}},
@@ -1167,8 +1201,8 @@ func TestCheck(t *testing.T) {
 							}
 						}()
 						for _, win := range []time.Duration{0, 2 * time.Millisecond} {
-								synctest.Test(c.T, func(t *testing.T) { runTermMon(c, r, g, win) })
-							}
+							synctest.Test(c.T, func(t *testing.T) { runTermMon(c, r, g, win) })
+						}
 					}()
 				}
 			}
@@ -1278,8 +1312,8 @@ func TestCheck(t *testing.T) {
 						}
 					}()
 					for _, win := range []time.Duration{0, 2 * time.Millisecond} {
-								synctest.Test(c.T, func(t *testing.T) { runTermMon(c, r, g, win) })
-							}
+						synctest.Test(c.T, func(t *testing.T) { runTermMon(c, r, g, win) })
+					}
 				}()
 				r.Count("termmon_repeated_same_instant_histories", 1)
 				if stop {
